@@ -8,7 +8,7 @@ PROP = dict(
                "(set and clear, Pilosa and official payloads, rowSize 0/16), Optimize, re-load from own WriteTo bytes (mapped containers) and "
                "reads are applied to a slice-backed and a B-tree-backed bitmap at once, with values concentrated on 3-4 container keys so the "
                "last-container lookasides stay hot (one history in ten starts from a multi-page B-tree of > 508 containers and empties key ranges "
-               "before Optimize). After every step Contains on all recently touched values and their neighbours, Count, Any, Slice, iterator Seek, "
+               "before Optimize; there point operations also address any prefilled key and sweep imports (set/clear, Pilosa and official payloads) touch every container of a key range, so Containers.Update runs on the first and last key of every B-tree page). After every step Contains on all recently touched values and their neighbours, Count, Any, Slice, iterator Seek, "
                "CountRange, Min/Max, per-container cardinalities and structure of both bitmaps are compared with the model, every mutation's "
                "reported change (bool / count / a[:changed] list / per-row deltas) with the model's delta; payload buffers are poisoned after the "
                "call and the bytes a re-loaded bitmap is mapped onto must never be written. Exploration, not proof.",
